@@ -346,10 +346,14 @@ def o155(ctx):
                     "data type", wr[0].node if wr else fw, mw)
 
 
-def obligations():
+def _obligations():
     return [
         Obligation("O15.1", "crop: centred windows on the height axis 1 / width axis 2, protocol", o151, floor=7),
         Obligation("O15.2", "sort (ascending argsort, axis 0), remove (np.delete axis 0, 1-based option, no in-place), bin (1,b,b)", o152, floor=20),
         Obligation("O15.3", "even/odd split by parity over every index; flips reverse one axis each; merge on axis 0 ascending", o153, floor=25),
         Obligation("O15.5", "TiltStack: xyz arrays permuted (2,1,0), files unpermuted, correct_order iff orders differ, write_out", o155, floor=8),
     ]
+
+
+def obligations():
+    return _obligations() + [effects_obligation("C15")]
